@@ -247,10 +247,16 @@ def _poll_helpers(ctx) -> Dict[int, Tuple[Func, str]]:
         probs, counter, outer = _poll_shape(m.node, m.body(), rs[0])
         if probs or counter is None or outer is None:
             continue
-        # the poll `if` and an unconditional increment of the counter are top-level statements of the helper
         top = m.body()
+        if outer not in top or any(isinstance(s, ast.Return) for s in top[: top.index(outer)]):
+            continue
+        if counter in m.params():
+            # the loop passes its own counter: the call site is checked for an increment before it
+            out[id(m)] = (m, "param:" + counter)
+            continue
+        # otherwise the helper itself counts the step, unconditionally and before the poll
         inc = [s for s in top if isinstance(s, ast.AugAssign) and norm(s.target) == counter and isinstance(s.op, ast.Add)]
-        if outer in top and inc and top.index(inc[0]) < top.index(outer) and not any(isinstance(s, ast.Return) for s in top[: top.index(outer)]):
+        if inc and top.index(inc[0]) < top.index(outer):
             out[id(m)] = (m, counter)
     return out
 
@@ -272,6 +278,7 @@ def rule_matcher_loop_poll(ctx, rep, rid: str, budgets: bool = False, rid_budget
         counter = None
         pn = None
         via = None
+        via_param = False
         if rs:
             probs, counter, poll_stmt = _poll_shape(loop, loop.body, rs[0])
             pn = cfg.node_of_stmt.get(id(poll_stmt)) if poll_stmt is not None else None
@@ -288,11 +295,23 @@ def rule_matcher_loop_poll(ctx, rep, rid: str, budgets: bool = False, rid_budget
             pn = calls[0]
             hid = [id(t) for c in walk_no_nested(pn.ast) if isinstance(c, ast.Call) and cg.site_of_call.get(id(c)) for t in cg.site_of_call[id(c)].targets if id(t) in helpers][0]
             via, counter = helpers[hid]
+            if counter.startswith("param:"):
+                # counter passed as an argument: resolve it to the loop's local and check it like the inline form
+                from ..util import bind_args
+
+                call = [c for c in walk_no_nested(pn.ast) if isinstance(c, ast.Call) and cg.site_of_call.get(id(c)) and any(id(t) == hid for t in cg.site_of_call[id(c)].targets)][0]
+                a = bind_args(call, via).get(counter[6:])
+                counter = norm(a) if a is not None else None
+                if counter is None:
+                    probs.append("the polling helper is called without its step-counter argument")
+                via_param = True
+            else:
+                via_param = False
         if pn is not None:
             p = cfg.path_avoiding(head.id, lambda n: n.id == head.id, {pn.id}, within, start_succ=True)
             if p is not None:
                 probs.append(f"an iteration path [{path_str(p)}] reaches the loop head again without passing the poll at line {pn.line}")
-        if counter is not None and via is None:
+        if counter is not None and (via is None or via_param):
             incs = [n for n in cfg.nodes if n.id in within and isinstance(n.ast, ast.AugAssign) and norm(n.ast.target) == counter and isinstance(n.ast.op, ast.Add)]
             if not incs:
                 probs.append(f"step counter {counter} is never incremented in the loop")
@@ -687,7 +706,10 @@ def rule_one_deadline(ctx, rep, rid: str) -> None:
     for m in t.mro(vmcls)[0].methods.values():
         for n in m.own_nodes():
             if isinstance(n, ast.Assign) and any(norm(tg) == "self.start_time" for tg in n.targets) and m.name != "__init__":
-                stampers.append((m, n))
+                from ..util import is_clock_call
+
+                if any(is_clock_call(x) for x in ast.walk(n.value)):
+                    stampers.append((m, n))  # only assignments that read the clock stamp a deadline
     nested = 0
     for cs in ctx.cg.sites:
         if cs.ext != "class:" + vmcls.qual:
